@@ -8,6 +8,46 @@ from . import shared, field, conv2, norm, ladder
 LADDERS = [("crate::fields::FieldElement::pow", "one", "squared", "mul_assign")]
 
 
+def machine_forward(repo, b, op):
+    """The wrapper's outcomes, read off the byte-provenance machine: Gt(inner_op(self.0, other.0)) / Option mapped back."""
+    from core.bytex import Machine, T, Adt as BAdt, Ref as BRef
+    from .conv2 import Conv, strip_newtypes
+    cv = Conv(repo)
+    ins = b.rec.get("inputs") or []
+    holders, args = [], []
+    for i, ty in enumerate(ins):
+        v = T("self") if i == 0 else T("arg", i + 1)
+        if ty.strip().startswith("&"):
+            holders.append(v)
+            args.append(BRef(0, len(holders) - 1))
+        else:
+            args.append(v)
+    outs = Machine(repo.F, cv.policy).run(b, args, holders=holders)
+
+    def inner_call(t, name, nargs):
+        if not (isinstance(t, T) and t[0] == "call" and t[1].split("::")[-1] == name and len(t[3]) == nargs):
+            return False
+        want = [T("field", T("self") if i == 0 else T("arg", i + 1), 0, "0") for i in range(nargs)]
+        got = [x[:3] if isinstance(x, T) and x[0] == "field" else x for x in t[3]]
+        return got == [w[:3] for w in want]
+    if op in ("mul", "pow"):
+        return len(outs) == 1 and outs[0].kind == "return" and inner_call(strip_newtypes(outs[0].value), op, 2)
+    if op == "inverse":
+        if len(outs) != 2 or any(o.kind != "return" or len(o.pc) != 1 for o in outs):
+            return False
+        for o in outs:
+            atom, ch = o.pc[0]
+            if not inner_call(atom, "inverse", 1):
+                return False
+            if ch == "Some":
+                if not (isinstance(o.value, BAdt) and o.value.variant == "Some" and strip_newtypes(o.value.fields[0]) == T("payload", atom, "Some")):
+                    return False
+            elif not (isinstance(o.value, BAdt) and o.value.variant == "None"):
+                return False
+        return True
+    return False
+
+
 def rule_gt_forward(repo):
     F = repo.F
     R = Rule("R-GT-FORWARD", "Gt operations forward to the Fq12 operation on the wrapped values (mul in order, pow with the scalar's inner value, inverse mapped back)", floor=4)
@@ -26,6 +66,8 @@ def rule_gt_forward(repo):
             continue
         rv = repo.tb(b).return_value()
         ok, _ = shared.forwards(repo, b, pred, opof[path])
+        if not ok and opof[path]:
+            ok = machine_forward(repo, b, opof[path])
         R.check(ok, "C11:gt:%s" % path, "%s does not forward as specified: %s" % (path, show(rv, maxdepth=3)[:160]), b.file_line(), path, sample={"fn": path, "is": show(rv, maxdepth=2)[:100]})
     return R.finish()
 
